@@ -9,6 +9,12 @@ namespace Rio.Html
 namespace Tokenizer
 open Rio.Consts
 
+-- unfold the `let r := t.readByte` variables that `fun_induction` leaves in the context
+set_option hygiene false in
+local macro "zd" : tactic => `(tactic| ((try simp only [r2] at *); (try simp only [r] at *)))
+
+local macro "crfl" : tactic => `(tactic| first | (simp [core]; done) | rfl)
+
 /-- flags clear and read position in range -/
 structure Ok (t : Tokenizer) : Prop where
   le : t.rawE ≤ t.buf.size
@@ -36,6 +42,12 @@ theorem readByte_adv {t : Tokenizer} (h : Ok t) : Adv t t.readByte.1 := by
   unfold readByte; split
   · exact ⟨rfl, rfl, Nat.le_succ _, ⟨by simp; omega, h.panic, h.hang, h.utf8⟩, rfl, rfl⟩
   · exact ⟨rfl, rfl, Nat.le_refl _, ⟨h.le, h.panic, h.hang, h.utf8⟩, rfl, rfl⟩
+
+@[simp] theorem readByte_dataS (t : Tokenizer) : t.readByte.1.dataS = t.dataS := by
+  unfold readByte; split <;> rfl
+
+@[simp] theorem unread_dataS (t : Tokenizer) (k : Nat) : (t.unread k).dataS = t.dataS := by
+  unfold unread; split <;> rfl
 
 theorem readByte_pos {t : Tokenizer} (h : ¬ t.readByte.1.err = true) : 1 ≤ t.readByte.1.rawE := by
   unfold readByte at *; split <;> simp_all
@@ -65,7 +77,7 @@ theorem unread_rawE_eq {t : Tokenizer} (k : Nat) (hk : k ≤ t.rawE) : (t.unread
 theorem setDataEndBack_adv {t0 t : Tokenizer} (k : Nat) (h : Adv t0 t) (hk : k ≤ t.rawE) : Adv t0 (t.setDataEndBack k) := by
   unfold setDataEndBack
   simp only [hk, if_true]
-  exact h.congr rfl
+  exact h.congr (by crfl)
 
 /-- a successful read followed by `raw.end -= 1` -/
 theorem read_unread_adv {t : Tokenizer} (h : Ok t) (herr : ¬ t.readByte.1.err = true) : Adv t (t.readByte.1.unread 1) :=
@@ -84,14 +96,171 @@ theorem skipWhiteSpace_adv (t : Tokenizer) (h : Ok t) : Adv t (skipWhiteSpace t)
 
 theorem untilCloseAngleGo_adv (t : Tokenizer) (h : Ok t) : Adv t (untilCloseAngleGo t) := by
   fun_induction untilCloseAngleGo t with
-  | case1 t r herr => exact (readByte_adv h).congr rfl
+  | case1 t r herr => exact (readByte_adv h).congr (by crfl)
   | case2 t r herr hb => exact setDataEndBack_adv 1 (readByte_adv h) (readByte_pos herr)
   | case3 t r herr hb ih => exact (readByte_adv h).trans (ih (readByte_adv h).ok)
 
 theorem readUntilCloseAngle_adv (t : Tokenizer) (h : Ok t) : Adv t (readUntilCloseAngle t) := by
   unfold readUntilCloseAngle
-  have h0 : Adv t { t with dataS := t.rawE } := (Adv.refl h).congr rfl
+  have h0 : Adv t { t with dataS := t.rawE } := (Adv.refl h).congr (by crfl)
   exact h0.trans (untilCloseAngleGo_adv _ h0.ok)
+
+theorem readToEnd_adv (t : Tokenizer) (h : Ok t) : Adv t (readToEnd t) := by
+  fun_induction readToEnd t with
+  | case1 t herr => exact Adv.refl h
+  | case2 t herr r herr2 => exact readByte_adv h
+  | case3 t herr r herr2 ih => exact (readByte_adv h).trans (ih (readByte_adv h).ok)
+
+theorem readToEnd_err (t : Tokenizer) : (readToEnd t).err = true := by
+  fun_induction readToEnd t with
+  | case1 t herr => exact herr
+  | case2 t herr r herr2 => exact herr2
+  | case3 t herr r herr2 ih => exact ih
+
+/-! ### comments, declarations -/
+
+theorem commentGo_adv (t : Tokenizer) (dash : Nat) (h : Ok t) (h3 : 3 ≤ t.rawE) : Adv t (commentGo t dash) := by
+  fun_induction commentGo t dash with
+  | case1 t dash r herr =>
+    zd
+    exact setDataEndBack_adv _ (readByte_adv h) (by have := (readByte_adv h).mono; split <;> omega)
+  | case2 t dash r herr hb ih =>
+    zd
+    exact (readByte_adv h).trans (ih (readByte_adv h).ok (by have := (readByte_adv h).mono; omega))
+  | case3 t dash r herr hb1 hb2 hd =>
+    zd
+    exact setDataEndBack_adv _ (readByte_adv h) (by have := (readByte_adv h).mono; simp [htmlCommentEndLen]; omega)
+  | case4 t dash r herr hb1 hb2 hd ih =>
+    zd
+    exact (readByte_adv h).trans (ih (readByte_adv h).ok (by have := (readByte_adv h).mono; omega))
+  | case5 t dash r herr hb1 hb2 hb3 hd r2 herr2 =>
+    zd
+    exact ((readByte_adv h).trans (readByte_adv (readByte_adv h).ok)).congr (by crfl)
+  | case6 t dash r herr hb1 hb2 hb3 hd r2 herr2 hb4 =>
+    zd
+    have a1 := readByte_adv h
+    have a2 := readByte_adv a1.ok
+    have := readByte_succ herr
+    have := readByte_succ herr2
+    exact setDataEndBack_adv _ (a1.trans a2) (by simp [htmlCommentBangEndLen]; omega)
+  | case7 t dash r herr hb1 hb2 hb3 hd r2 herr2 hb4 ih =>
+    zd
+    have a1 := readByte_adv h
+    have a2 := readByte_adv a1.ok
+    exact (a1.trans a2).trans (ih a2.ok (by have := a1.mono; have := a2.mono; omega))
+  | case8 t dash r herr hb1 hb2 hb3 hd ih =>
+    zd
+    exact (readByte_adv h).trans (ih (readByte_adv h).ok (by have := (readByte_adv h).mono; omega))
+  | case9 t dash r herr hb1 hb2 hb3 ih =>
+    zd
+    exact (readByte_adv h).trans (ih (readByte_adv h).ok (by have := (readByte_adv h).mono; omega))
+
+theorem readComment_adv (t : Tokenizer) (h : Ok t) (h3 : 3 ≤ t.rawE) : Adv t (readComment t) := by
+  unfold readComment
+  have h0 : Adv t { t with dataS := t.rawE } := (Adv.refl h).congr (by crfl)
+  have h1 := h0.trans (commentGo_adv _ 2 h0.ok h3)
+  simp only
+  split
+  · exact h1.congr (by crfl)
+  · exact h1
+
+theorem cdataGo_adv (t : Tokenizer) (br : Nat) (h : Ok t) (h2 : 2 ≤ t.rawE) : Adv t (cdataGo t br) := by
+  fun_induction cdataGo t br with
+  | case1 t br r herr => zd; exact (readByte_adv h).congr (by crfl)
+  | case2 t br r herr hb ih =>
+    zd
+    exact (readByte_adv h).trans (ih (readByte_adv h).ok (by have := (readByte_adv h).mono; omega))
+  | case3 t br r herr hb1 hb2 hbr =>
+    zd
+    exact setDataEndBack_adv _ (readByte_adv h) (by have := readByte_succ herr; simp [htmlCdataEndLen]; omega)
+  | case4 t br r herr hb1 hb2 hbr ih =>
+    zd
+    exact (readByte_adv h).trans (ih (readByte_adv h).ok (by have := (readByte_adv h).mono; omega))
+  | case5 t br r herr hb1 hb2 ih =>
+    zd
+    exact (readByte_adv h).trans (ih (readByte_adv h).ok (by have := (readByte_adv h).mono; omega))
+
+/-- `declLoop` relative to a base state `b` whose `raw.end` is the saved `data.start`. -/
+theorem declLoop_adv (b t : Tokenizer) (pat : List (Nat × Nat)) (hb : Adv b t) (hd : t.dataS = b.rawE) :
+    Adv b (declLoop t pat).1 ∧ (declLoop t pat).1.dataS = t.dataS ∧
+    ((declLoop t pat).2 = true → Adv t (declLoop t pat).1) := by
+  induction pat generalizing t with
+  | nil => exact ⟨hb, rfl, fun _ => Adv.refl hb.ok⟩
+  | cons c cs ih =>
+    obtain ⟨c, c'⟩ := c
+    have a1 := readByte_adv hb.ok
+    have hds : t.readByte.1.dataS = t.dataS := readByte_dataS t
+    simp only [declLoop]
+    split
+    · exact ⟨(hb.trans a1).congr (by crfl), hds, by simp⟩
+    · split
+      · refine ⟨?_, hds, by simp⟩
+        have hb1 := hb.trans a1
+        exact ⟨hb1.buf, hb1.rawS, by simp [hds, hd], ⟨by have := hb.ok.le; have := hb.mono; have := hb.buf; simp [hds, hd, readByte_buf]; omega, hb1.ok.panic, hb1.ok.hang, hb1.ok.utf8⟩, hb1.rawTag, hb1.cdata⟩
+      · have := ih t.readByte.1 (hb.trans a1) (by rw [hds, hd])
+        exact ⟨this.1, this.2.1.trans hds, fun h => a1.trans (this.2.2 h)⟩
+
+theorem readDocType_adv (b t : Tokenizer) (hb : Adv b t) (hd : t.dataS = b.rawE) :
+    Adv b (readDocType t).1 ∧ ((readDocType t).2 = false → (readDocType t).1.dataS = b.rawE) := by
+  have hl := declLoop_adv b t htmlDoctypePat hb hd
+  unfold readDocType
+  simp only
+  split
+  · exact ⟨hl.1, fun _ => hl.2.1.trans hd⟩
+  · have a1 := skipWhiteSpace_adv _ hl.1.ok
+    split
+    · exact ⟨(hl.1.trans a1).congr (by crfl), by simp⟩
+    · exact ⟨(hl.1.trans a1).trans (readUntilCloseAngle_adv _ a1.ok), by simp⟩
+
+theorem readCdata_adv (b t : Tokenizer) (hb : Adv b t) (hd : t.dataS = b.rawE) (h2 : 2 ≤ b.rawE) :
+    Adv b (readCdata t).1 := by
+  have hl := declLoop_adv b t htmlCdataPat hb hd
+  unfold readCdata
+  simp only
+  split
+  · exact hl.1
+  · have h0 : Adv b { (declLoop t htmlCdataPat).1 with dataS := (declLoop t htmlCdataPat).1.rawE } := hl.1.congr (by crfl)
+    exact h0.trans (cdataGo_adv _ 0 h0.ok (by have := h0.mono; simp at this ⊢; omega))
+
+theorem markupRest_adv (b t : Tokenizer) (hb : Adv b t) (hd : t.dataS = b.rawE) (h2 : 2 ≤ b.rawE) :
+    Adv b (markupRest t).1 := by
+  have hd' := readDocType_adv b t hb hd
+  unfold markupRest
+  simp only
+  generalize t.readDocType = d at *
+  split
+  · exact hd'.1
+  · rename_i hdf
+    have hdf' := hd'.2 (by simpa using hdf)
+    split
+    · have hc := readCdata_adv b _ hd'.1 hdf' h2
+      generalize d.1.readCdata = c at *
+      split
+      · exact hc.congr (by crfl)
+      · exact hc.trans (readUntilCloseAngle_adv _ hc.ok)
+    · exact hd'.1.trans (readUntilCloseAngle_adv _ hd'.1.ok)
+
+theorem markupGo_adv (t : Tokenizer) (h : Ok t) (h2 : 2 ≤ t.rawE) (hd : t.dataS = t.rawE) : Adv t (markupGo t).1 := by
+  unfold markupGo
+  simp only
+  have a1 := readByte_adv h
+  have a2 := readByte_adv a1.ok
+  split
+  · exact a1.congr (by crfl)
+  · rename_i herr1
+    split
+    · exact (a1.trans a2).congr (by crfl)
+    · rename_i herr2
+      have e1 := readByte_succ herr1
+      have e2 := readByte_succ herr2
+      split
+      · exact (a1.trans a2).trans (readComment_adv _ a2.ok (by omega))
+      · exact markupRest_adv t _ (unread_adv 2 (a1.trans a2) (by omega)) (by simp [hd]) h2
+
+theorem readMarkupDeclaration_adv (t : Tokenizer) (h : Ok t) (h2 : 2 ≤ t.rawE) : Adv t (readMarkupDeclaration t).1 := by
+  unfold readMarkupDeclaration
+  have h0 : Adv t { t with dataS := t.rawE } := (Adv.refl h).congr (by crfl)
+  exact h0.trans (markupGo_adv _ h0.ok h2 rfl)
 
 end Tokenizer
 end Rio.Html
